@@ -174,6 +174,7 @@ func invParser(p *Parser) bool {
 func invDepth(p *Parser) bool { return 0 <= p.depth && p.depth <= 64 }
 
 //@ func (*Parser).parseItem
+//@ paths split
 //@ requires invParser(p) && invDepth(p)
 //@ modifies p.data, p.pos, p.depth
 //@ ensures [inv]   invParser(p) && p.depth == old(p.depth)
@@ -185,7 +186,7 @@ func invDepth(p *Parser) bool { return 0 <= p.depth && p.depth <= 64 }
 //@ allocates [input] len(p.input) + 1
 //@ ensures [inv]   invParser(p) && p.depth == old(p.depth) && p.pos >= old(p.pos)
 //@ ensures [deep]  old(p.depth) >= 64 ==> result1 != nil
-//@ loop 1 invariant [inv] invParser(p) && p.depth == old(p.depth)+1 && p.depth <= 64 && fresh(childItems)
+//@ loop 1 invariant [inv] invParser(p) && p.depth == old(p.depth)+1 && p.depth <= 64 && fresh(childItems) && p.pos >= old(p.pos)
 
 // --- string items ---
 
